@@ -606,13 +606,24 @@ def run_check(chk, tier, seed):
     vs = [os.path.join(COQ, f) for f in coq_project_files()
           if f.startswith(chk.coq_dir + "/") or f.startswith("Base/")]
     audit_sources(vs)
+    def retry(fn):
+        # Props.vo is rebuilt by every run of this property: a concurrent run (the other tier, a
+        # self-test) can replace it while it is being read here.  Rebuild and try again.
+        for attempt in range(3):
+            try:
+                return fn()
+            except MachineryError:
+                if attempt == 2:
+                    raise
+                time.sleep(3 + 5 * attempt)
+                coq_build(targets, timeout=chk.build_timeout)
     if ok:
-        ax = print_assumptions(chk.prop, chk.coq_dir, thms)
+        ax = retry(lambda: print_assumptions(chk.prop, chk.coq_dir, thms))
         check_axioms(ax)
         res.theorem_axioms = ax
     # 3b. thorough tier: re-check the compiled closure of Props.vo with the independent checker
     if ok and tier == "thorough" and os.environ.get("VERIF_NO_COQCHK") != "1":
-        res.coverage["coqchk"] = coqchk_props(chk.coq_dir)
+        res.coverage["coqchk"] = retry(lambda: coqchk_props(chk.coq_dir))
     # 4. correspondence
     hints = []
     if model_ok:
